@@ -185,8 +185,12 @@ def rule_att(ctx: Ctx) -> RuleReport:
     fi = ctx.p.func(EML, "_read_eml_format")
     b64 = [n for n in walk_own(fi.node) if isinstance(n, ast.Call) and dotted(n.func) == "base64.b64decode"]
     bin_vars = {n.targets[0].id for n in walk_own(fi.node) if isinstance(n, ast.Assign) and len(n.targets) == 1 and isinstance(n.targets[0], ast.Name) and "'binary'" in norm(n.value)}
-    binary_test = [n for n in walk_own(fi.node) if isinstance(n, ast.If) and isinstance(n.test, ast.Name) and n.test.id in bin_vars]
-    if b64 and binary_test and all(any(x is c for t in binary_test for st in t.body for x in ast.walk(st)) for c in b64):
+    def under_flag(c):
+        conds, opaque, _ = path_conditions(fi.node, c)
+        texts = [str(k) for k in conds] + [o for o in opaque if not o.startswith("not ")]
+        return any(t in bin_vars or ("'binary'" in t and not t.startswith("not ")) for t in texts)
+
+    if b64 and all(under_flag(c) for c in b64):
         rep.ok({"fn": "_read_eml_format", "binary payload": "base64.b64decode under `if is_binary`"})
     else:
         rep.fail(Finding("C16-ATT", EML, "_read_eml_format", "binary payload decoding", "mailparser hands binary attachments over as base64 text; they must be decoded under the `binary` flag (and only there)", line=fi.node.lineno))
